@@ -1193,10 +1193,46 @@ func callBuiltin(caller *frame, callpos token.Pos, fn *ssa.Builtin, args []value
 			panic(fmt.Sprintf("cap: illegal operand: %T", x))
 		}
 
-	case "min":
-		return foldLeft(min, args)
-	case "max":
-		return foldLeft(max, args)
+	case "clear": // clear(map) / clear([]T)
+		switch x := args[0].(type) {
+		case *omap:
+			if x != nil {
+				x.entries = nil
+				x.idx = make(map[value]*oentry)
+				x.nsym = 0
+			}
+		case []value:
+			if len(x) > 0 {
+				et := fn.Type().(*types.Signature).Params().At(0).Type().Underlying().(*types.Slice).Elem()
+				for i := range x {
+					x[i] = zero(et)
+				}
+			}
+		default:
+			panic(fmt.Sprintf("clear: illegal operand: %T", x))
+		}
+		return nil
+
+	case "min", "max":
+		pt := fn.Type().(*types.Signature).Params().At(0).Type()
+		isMin := fn.Name() == "min"
+		return foldLeft(func(x, y value) value {
+			switch x.(type) {
+			case float32, float64, string:
+				if isMin {
+					return min(x, y)
+				}
+				return max(x, y)
+			}
+			op := token.GTR
+			if isMin {
+				op = token.LSS
+			}
+			if P.truth(binop(op, pt, y, x)) {
+				return y
+			}
+			return x
+		}, args)
 
 	case "real":
 		switch c := args[0].(type) {
@@ -1340,6 +1376,9 @@ func conv(t_dst, t_src types.Type, x value) value {
 		if b, ok := ut_dst.(*types.Basic); ok {
 			if b.Kind() == types.String {
 				// integer -> string (rune)
+				if sx.k == types.Int32 {
+					return normStr(symEncodeRune(sx))
+				}
 				v := P.concretize(sx, "rune to string")
 				return string(rune(v))
 			}
@@ -1357,17 +1396,11 @@ func conv(t_dst, t_src types.Type, x value) value {
 				copy(out, sx.b)
 				return out
 			case types.Rune:
-				out := make([]value, len(sx.b))
-				for i, b := range sx.b {
-					asciiOnly(b, "byte in string->[]rune")
-					if sb, ok := b.(sym); ok {
-						out[i] = symConvScalar(types.Int32, sb)
-					} else {
-						if b.(uint8) >= 0x80 {
-							panic(pathEnd{"unsupported", "non-ASCII byte next to symbolic bytes in string->[]rune"})
-						}
-						out[i] = int32(b.(uint8))
-					}
+				out := []value{}
+				for i := 0; i < len(sx.b); {
+					r, size := symDecodeRune(sx.b[i:])
+					out = append(out, r)
+					i += size
 				}
 				return out
 			}
@@ -1407,9 +1440,8 @@ func conv(t_dst, t_src types.Type, x value) value {
 			}
 			out := make([]value, 0, len(x))
 			for i := range x {
-				asciiOnly(x[i], "rune in []rune->string")
 				if sr, ok := x[i].(sym); ok {
-					out = append(out, symConvScalar(types.Uint8, sr))
+					out = append(out, symEncodeRune(sr)...)
 				} else {
 					// a concrete rune contributes its UTF-8 encoding
 					for _, b := range []byte(string(x[i].(rune))) {
@@ -1637,7 +1669,7 @@ func min(x, y value) value {
 	}
 
 	// return (y < x) ? y : x
-	if binop(token.LSS, nil, y, x).(bool) {
+	if P.truth(binop(token.LSS, nil, y, x)) {
 		return y
 	}
 	return x
@@ -1652,7 +1684,7 @@ func max(x, y value) value {
 	}
 
 	// return (y > x) ? y : x
-	if binop(token.GTR, nil, y, x).(bool) {
+	if P.truth(binop(token.GTR, nil, y, x)) {
 		return y
 	}
 	return x
